@@ -39,8 +39,8 @@ ASSUMPTIONS = [
     "sparse) reaches every buffer of an operand or result (cross-checked by the in-place sentinel writes in both directions)",
     "aliasing depends on the parameter class and memory layout, not on values: the enumerated classes (identity vs other "
     "permutation, same vs new shape, single vs several modes, copy flag, init given, negative indices ...) are representative",
-    "optimizer/solver objects passed to gcp_opt are not counted as operands (the property lists tensors, factor matrices, "
-    "index/value/vector arrays)",
+    "optimizer/solver objects passed to gcp_opt are tracked as operands in the 'optimizer-tracked' rows (every attribute reachable "
+    "from the object is snapshotted); that the stochastic solvers keep their run state in the object is known finding C05-N10",
 ]
 EXPLANATION = ("Level other: C05_frame/C05_copy/C05_inplace_footprint are proved for all stores and write histories; their "
                "hypothesis (result buffers disjoint from operand buffers) is measured here per operation x parameter class "
@@ -493,6 +493,9 @@ def _ktensor_table():
     reg(c, "normalize", "normtype=1", XK, lambda o: o.X.normalize(normtype=1), **I)
     reg(c, "normalize", "mode", XK, lambda o: o.X.normalize(mode=0), **I)
     reg(c, "nvecs", "r=1", XK, lambda o: o.X.nvecs(0, 1))
+    reg(c, "nvecs", "r=1,last-mode", XK, lambda o, b: o.X.nvecs(b.N - 1, 1))
+    reg(c, "nvecs", "r=1,middle-mode", XK, lambda o: o.X.nvecs(1, 1))
+    reg(c, "nvecs", "r=1,every-mode-in-turn", XK, lambda o, b: [o.X.nvecs(n, 1) for n in range(b.N)])
     reg(c, "nvecs", "r=2,noflip", XK, lambda o: o.X.nvecs(0, 2, flipsign=False), shapes=NOSINGLE)
     reg(c, "permute", "identity", lambda b: dict(X=b.K(), order=np.arange(b.N)), lambda o: o.X.permute(o.order))
     reg(c, "permute", "reverse", lambda b: dict(X=b.K(), order=np.arange(b.N)[::-1].copy()), lambda o: o.X.permute(o.order))
@@ -778,6 +781,20 @@ def _toplevel_table():
     reg(c, "gcp_opt", "lbfgsb,init=random", lambda b: dict(X=b.T()), lambda o, b: gcp(b, o.X, "random"), shapes=ALG)
     reg(c, "gcp_opt", "lbfgsb,init=ktensor,mask", lambda b: dict(X=b.T(), init=b.K(), W=b.W()), lambda o, b: gcp(b, o.X, o.init, mask=o.W), shapes=ALG)
     reg(c, "gcp_opt", "adam,init=ktensor,dense", lambda b: dict(X=b.T(), init=b.K()), lambda o, b: gcp(b, o.X, o.init, True), shapes=ALG)
+    # the optimizer object handed to gcp_opt is an operand too: solving must not leave state in it, nor may the
+    # result share arrays with it
+    def mkopt(name):
+        from pyttb.gcp.optimizers import LBFGSB, SGD, Adam, Adagrad
+        if name == "lbfgsb":
+            return LBFGSB(maxiter=2, iprint=-1)
+        return {"sgd": SGD, "adam": Adam, "adagrad": Adagrad}[name](max_iters=1, epoch_iters=2, printitn=0)
+
+    def gcp_o(b, X, init, opt):
+        from pyttb.gcp.fg_setup import Objectives
+        return _M(b.ttb.gcp_opt, X, 2, Objectives.GAUSSIAN, opt, init=init, printitn=0)
+    for on in ("lbfgsb", "sgd", "adam", "adagrad"):
+        reg(c, "gcp_opt", f"{on},optimizer-tracked,init=list", lambda b, on=on: dict(X=b.T(), init=b.fm(), opt=mkopt(on)),
+            lambda o, b: gcp_o(b, o.X, o.init, o.opt), shapes=ALG)
     # hosvd / tucker_als ------------------------------------------------------------------------------
     reg(c, "hosvd", "tol", lambda b: dict(X=b.T()), lambda o, b: b.ttb.hosvd(o.X, 1e-4, verbosity=0), shapes=ALG)
     reg(c, "hosvd", "ranks=ndarray", lambda b: dict(X=b.T(), ranks=np.array([1] * b.N)), lambda o, b: b.ttb.hosvd(o.X, 1e-4, verbosity=0, ranks=o.ranks), shapes=ALG)
@@ -1141,34 +1158,18 @@ def _trig(*pairs):
     return lambda c: (c.op, c.args.get("pclass")) in allowed
 
 
+# open (known) findings only. Repaired in /repo and therefore without trigger/witness (a regression is reported):
+# A-18 (2c488d8), A-19 (05ae91c), A-20 (c5cca04), A-21 (eaab1d3), A-22 (2271d4e), A-23 (1faa4aa), A-25 (e8f8528),
+# C05-N01 (9da7cbd), N02 (5de610a), N03 (a809e3d), N04 (d1f4c19), N05 (6294fd3), N06 (d564eea), N07 (a86915b), N09 (03905f9).
 FINDING_CLASSES = {
-    "A-18": [("tensor.permute", "identity"), ("tensor.permute", "singleton-move")],
-    "A-19": [("tensor.reshape", "same-shape"), ("tensor.reshape", "to-vector"), ("tensor.reshape", "to-matrix")],
-    "A-20": [("ktensor.ttv", "single"), ("ktensor.ttv", "single,last"), ("ktensor.ttv", "dims-array"), ("ktensor.ttv", "exclude"),
-             ("sumtensor.ttv", "single"), ("sumtensor.ttv", "exclude")],
-    "A-21": [("utils.tt_ind2sub", "negative")],
-    "A-22": [("ktensor.fixsigns", "other")],
-    "A-23": [("ttb.cp_apr", "pdnr,init=ktensor-with-zero-row"), ("ttb.cp_apr", "pqnr,init=ktensor-with-zero-row")],
     "A-24": [("ttb.gcp_opt", "lbfgsb,init=ktensor"), ("ttb.gcp_opt", "lbfgsb,init=ktensor,mask"), ("ttb.gcp_opt", "adam,init=ktensor,dense")],
-    "A-25": [("ttb.hosvd", "zero-ranks=ndarray(chosen by tol)")],
     "A-26": [("sumtensor.__add__", "tensor"), ("sumtensor.__add__", "ktensor"), ("sumtensor.__add__", "list"),
              ("sumtensor.__radd__", "tensor"), ("sumtensor.__radd__", "sptensor")],
-    "C05-N01": [("sptensor.find", "default")],
-    "C05-N02": [("sptensor.spmatrix", "default")],
-    "C05-N03": [("sptensor.__setitem__", "slice,sptensor")],
-    "C05-N04": [("ktensor.tolist", "mode"), ("ktensor.tolist", "mode,unit-weights"), ("ktensor.tolist", "all,unit-weights")],
-    "C05-N05": [("tenmat.__getitem__", "row"), ("tenmat.__getitem__", "full-slice")],
-    "C05-N06": [("sptenmat.double", "default")],
-    "C05-N07": [("ttb.khatrirao", "single-matrix")],
     "C05-N08": [("ttb.cp_als", "echo,init=ktensor"), ("ttb.cp_apr", "echo,init=ktensor"), ("ttb.tucker_als", "echo,init=list")],
-    "C05-N09": [("utils.tt_renumber", "slices"), ("utils.tt_renumber", "list-range"), ("utils.tt_renumber", "partial-slice")],
+    "C05-N10": [("ttb.gcp_opt", "sgd,optimizer-tracked,init=list"), ("ttb.gcp_opt", "adam,optimizer-tracked,init=list"),
+                ("ttb.gcp_opt", "adagrad,optimizer-tracked,init=list")],
 }
 TRIGGERS = {"c05_" + fid.replace("-", "_").lower(): _trig(*pairs) for fid, pairs in FINDING_CLASSES.items()}
-# seed-driven classes fall under a finding exactly when the drawn parameter lies in the finding's class
-TRIGGERS["c05_a_18"] = lambda c, _t=TRIGGERS["c05_a_18"]: _t(c) or (
-    c.op == "tensor.permute" and c.args.get("pclass") == "random-order"
-    and keeps_f_layout(c.args["shape"], rand_order(tuple(c.args["shape"]), c.args.get("seed", 0))))
-TRIGGERS["c05_a_20"] = lambda c, _t=TRIGGERS["c05_a_20"]: _t(c) or (c.op == "ktensor.ttv" and c.args.get("pclass") == "random-dim")
 
 
 def _witness(fid):
